@@ -224,14 +224,14 @@ props["C20"] = {
     "nontrivial": r"^(zc run |ck run |# c20 body )",
     "timeout": {"quick": 900, "thorough": 7200},
     "rule": "400 (quick) / 8,000 (thorough) generated closed returning computations of ZCore (ret, do, let, pair patterns, functions and application, thunks and force, data constructors and match, at result types Int64 and String; bodies with host operations, comparison, fix or codata are skipped because the checker refuses to inline sealed definitions into a monadic block or the translation is not specified for them - counted under skipped_*) are emitted twice over the real lib/std/control/monad.zy: plain (`def ! plain : Ret A = body`) and translated (`def ! translated = @[monadic] begin body end`, run as `! translated Ret { ! ret_monad }` with the identity instance return = ret, bind = run then continue); both are checked and run by the real pipeline and must give the same exit code and output whenever the translated block is accepted (a rejected translated block is outside the property and is counted, with samples in the evidence). The Lean reference semantics runs the same body (`zc run`) and must give the same answer as both real runs; the machine mirror runs the real linked translated program (`ck run`).",
-    "explanation": "The type-directed construction in elaborate/monadic (2,800 lines: environment lifting, structure terms, basis resolution) is not mirrored. What is kernel-checked is the identity instance itself on ZCore: the translation with the identity instance inlined (`liftIdC`: ret v becomes (fn value => ret value) v, do x <- m; n becomes idBind {m} {fn x => n}) preserves the reference behaviour; theorems proved so far are listed under `theorems`, the remaining statements stay in ZV/Props/C20Statements.lean and are not counted. The real translation is tied to this by the three-way agreement on every generated body.",
+    "explanation": "The type-directed construction in elaborate/monadic (2,800 lines: environment lifting, structure terms, basis resolution) is not mirrored. What is kernel-checked is the identity instance itself on ZCore: the translation with the identity instance inlined (`liftIdC`: ret v becomes (fn value => ret value) v, do x <- m; n becomes idBind {m} {fn x => n}) preserves the reference behaviour in both directions for every ZCore computation (ground results, exit, trap; goes wrong only where the plain term does) and satisfies the left unit law. The real translation is tied to this by the three-way agreement on every generated body.",
     "trusted_base": [KERNEL, AXIOMS, HARNESS,
                      "modelled, not verified: the shape of the translation at the identity instance (ZV/Model/Monadic.lean) follows the published algebra translation the code cites; it is not compared term by term with the elaborator's output - the linked translated program is run on the machine mirror and compared by behaviour",
                      "NOT modelled: elaborate/monadic/{mod,construct}.rs, MonadicBasisElaboration, translation at function and codata result types (Str(B)), typing of the translated block"],
     "assumptions": ["only pure bodies reach the comparison (host operations cannot appear inside a monadic block on this tree)"],
 }
 props["C20"]["manifest"] = {
-    "text": "Every generated supported body is run plain and as a monadic block at the identity instance through the real pipeline (same exit code and output required whenever the block is accepted), and both runs are compared with the Lean reference semantics of the body and with the machine mirror on the real translated program. The identity instance of the translation is modelled on ZCore and its behaviour preservation is stated in full (forward, backward, never wrong, left unit); the elaborator's construction itself is exercised, not modelled.",
+    "text": "Every generated supported body is run plain and as a monadic block at the identity instance through the real pipeline (same exit code and output required whenever the block is accepted), and both runs are compared with the Lean reference semantics of the body and with the machine mirror on the real translated program. The identity instance of the translation is modelled on ZCore and its behaviour preservation is proved (forward, backward, never wrong, left unit); the elaborator's construction itself is exercised, not modelled.",
     "note": "Level `other` (partial): the well-typedness of the translated block at the translated type is not modelled; only pure bodies are reachable.",
     "technique": "metamorphic run (plain vs monadic at the identity instance) + Lean reference semantics and machine mirror as third and fourth opinion + Lean theorem on the identity-instance translation of ZCore",
 }
